@@ -56,7 +56,18 @@ func c03Point(t *rapid.T, ev *evProp, gi *GroupInfo) {
 		return g.Point()
 	}
 	Q := usedRecv("Qrecv")
-	if err := Q.UnmarshalBinary(append([]byte(nil), enc...)); err != nil {
+	qin := append([]byte(nil), enc...)
+	defer func() {
+		// (checked at the end of the case) the decoder must not keep a reference to its input: the
+		// caller overwrites the buffer and the decoded point keeps its value
+		for j := range qin {
+			qin[j] ^= 0xff
+		}
+		if re := mustMarshal(t, Q); !bytes.Equal(re, enc) && !t.Failed() {
+			c03Fail(t, ev, gi, "decoder-keeps-input", "after the caller overwrote the decoded buffer the point encodes %x, was %x\n%s", re, enc, ctx)
+		}
+	}()
+	if err := Q.UnmarshalBinary(qin); err != nil {
 		c03Fail(t, ev, gi, "roundtrip", "UnmarshalBinary(MarshalBinary(P)) failed: %v\n%s enc=%x", err, ctx, enc)
 		return
 	}
@@ -203,7 +214,16 @@ func c03Scalar(t *rapid.T, ev *evProp, gi *GroupInfo) {
 		return g.Scalar()
 	}
 	u := usedRecv("urecv")
-	if err := u.UnmarshalBinary(append([]byte(nil), enc...)); err != nil {
+	uin := append([]byte(nil), enc...)
+	defer func() {
+		for j := range uin {
+			uin[j] ^= 0xff
+		}
+		if re := mustMarshal(t, u); !bytes.Equal(re, enc) && !t.Failed() {
+			c03Fail(t, ev, gi, "scalar.decoder-keeps-input", "after the caller overwrote the decoded buffer the scalar encodes %x, was %x\n%s", re, enc, ctx)
+		}
+	}()
+	if err := u.UnmarshalBinary(uin); err != nil {
 		c03Fail(t, ev, gi, "scalar.roundtrip", "UnmarshalBinary failed: %v\n%s", err, ctx)
 		return
 	}
